@@ -8,6 +8,7 @@
 
 mod c10;
 mod c11;
+mod c13;
 mod c14;
 mod c18;
 mod c19;
@@ -16,6 +17,7 @@ mod gen;
 mod gen_stl;
 mod minimise;
 mod oracle;
+mod probe;
 mod report;
 mod sim;
 
@@ -25,6 +27,7 @@ fn replay_dispatch(check: &str, v: &Value) -> Vec<(String, String)> {
     match check {
         "C10" => c10::replay_all(&v["case"]),
         "C11" => c11::replay_all(&v["case"]),
+        "C13" => c13::replay_all(&v["case"]),
         "C14" => c14::replay_all(&v["case"]),
         "C18" => c18::replay_all(&v["case"]),
         "C19" => c19::replay_all(&v["case"]),
@@ -71,6 +74,7 @@ fn main() {
         Some("C11") => c11::run(args.get(1).map(|s| s.as_str()).unwrap_or("quick"), seed),
         Some("C19") => c19::run(args.get(1).map(|s| s.as_str()).unwrap_or("quick"), seed),
         Some("C18") => c18::run(args.get(1).map(|s| s.as_str()).unwrap_or("quick"), seed),
+        Some("C13") => c13::run(args.get(1).map(|s| s.as_str()).unwrap_or("quick"), seed),
         Some("C14") => c14::run(args.get(1).map(|s| s.as_str()).unwrap_or("quick"), seed),
         _ => {
             eprintln!("usage: opwsim <C10..C19> <quick|thorough> | replay <file> | selftest");
